@@ -150,7 +150,9 @@ def _mk_write(attr, acc):
     return write
 
 
-def _mk_check(attr, acc, hook):
+def _mk_check(attr, acc, hook, own_limits=False):
+    """own_limits: the hook sits in the class that defines the limit parameters; frappy installs no automatic
+    limit check there, the hook calls checkLimits itself (as documented at Module.checkLimits)"""
     dt = acc['dt']
     raises = [json.dumps(v, sort_keys=True) for v in hook['raise']]
     stops = [json.dumps(v, sort_keys=True) for v in hook['stop']]
@@ -161,7 +163,11 @@ def _mk_check(attr, acc, hook):
         key = json.dumps(abs_value(dt, value), sort_keys=True)
         if key in raises:
             raise RangeError('scripted refusal')
-        return key in stops
+        if key in stops:
+            return True
+        if own_limits:
+            self.checkLimits(value, attr)
+        return False
     check.__name__ = 'check_' + attr
     return check
 
@@ -217,7 +223,8 @@ _count = [0]
 
 
 def build_class(accs, base='Module'):
-    """accs: {attr: accessible record} -> Module subclass  Derived(LimitMixin, Base(<base>))"""
+    """accs: {attr: accessible record} -> Module subclass  VMod(VLim, VMid(VBase(<base>))); hooks and limit
+    parameters are placed in the class their 'at' / 'level' names"""
     key = json.dumps([accs, base], sort_keys=True)
     if key in _classes:
         return _classes[key]
@@ -225,14 +232,12 @@ def build_class(accs, base='Module'):
     import frappy.modules as M
     from frappy.params import Limit
     bases = {'Module': M.Module, 'Readable': M.Readable, 'Writable': M.Writable, 'Drivable': M.Drivable}
-    bbody, lbody, dbody = {}, {}, {}
+    body = {'B': {}, 'M': {}, 'X': {}, 'D': {}}     # MRO: D(erived), X (plain mixin), M(iddle), B(ase)
     for attr, acc in accs.items():
         if acc['kind'] == 'cmd':
-            bbody[attr] = _mk_cmd(attr, acc)
+            body['B'][attr] = _mk_cmd(attr, acc)
             continue
         if acc.get('islimit'):
-            ex = _export(attr, acc)     # Limit(export=True) is not Limit(): frappy re-derives the name
-            lbody[attr] = Limit() if ex is True else Limit(export=ex)
             continue
         kw = {'readonly': acc['ro'], 'export': _export(attr, acc)}
         if acc['const'] != NULL:
@@ -241,19 +246,24 @@ def build_class(accs, base='Module'):
             kw['default'] = conc(acc['init'])
         if acc.get('unit'):
             kw['unit'] = acc['unit']          # '$' stands for the unit of the module's value
-        bbody[attr] = M.Parameter('p', build_dt(acc['dt']), **kw)
+        body['B'][attr] = M.Parameter('p', build_dt(acc['dt']), **kw)
         if acc['drv'] != 'absent':
-            bbody['write_' + attr] = _mk_write(attr, acc)
+            body['B']['write_' + attr] = _mk_write(attr, acc)
         for h in acc['hooks']:
-            if h['at'] == 'B':
-                bbody['check_' + attr] = _mk_check(attr, acc, h)
-            elif h['at'] == 'D':
-                dbody['check_' + attr] = _mk_check(attr, acc, h)
+            if h['at'] != 'LIMIT':
+                body[h['at']]['check_' + attr] = _mk_check(attr, acc, h, own_limits=(
+                    acc['lim']['kind'] != 'none' and h['at'] == acc.get('level', 'X')))
+    for attr, acc in accs.items():                  # limit parameters after the parameters they limit
+        if acc['kind'] == 'param' and acc.get('islimit'):
+            ex = _export(attr, acc)     # Limit(export=True) is not Limit(): frappy re-derives the name
+            body[acc.get('level', 'X')][attr] = Limit() if ex is True else Limit(export=ex)
     _count[0] += 1
     n = _count[0]
-    b = type(f'VBase{n}', (bases[base],), bbody)
-    seq = (type(f'VLim{n}', (), lbody), b) if lbody else (b,)
-    cls = type(f'VMod{n}', seq, dbody)
+    top = type(f'VBase{n}', (bases[base],), body['B'])
+    if body['M']:
+        top = type(f'VMid{n}', (top,), body['M'])
+    seq = (type(f'VLim{n}', (), body['X']), top) if body['X'] else (top,)
+    cls = type(f'VMod{n}', seq, body['D'])
     _classes[key] = cls
     return cls
 
@@ -641,34 +651,34 @@ def rand_shape(rnd):
             if const != NULL:
                 ro = True
             lim = {'kind': 'none'}
-            hooks = []
+            level = rnd.choice(['X', 'M', 'D', 'B'])      # class of the hierarchy that defines the limit parameters
             if numeric and const == NULL and rnd.random() < 0.6:
                 k = rnd.choice(['minmax', 'limits', 'min', 'max'])
                 pre = attr if attr in PREDEFINED_ACCESSIBLES else '_' + attr
                 if k == 'limits':
                     lim = {'kind': 'limits', 'both': attr + '_limits'}
                     accs[attr + '_limits'] = _limpar(pre + '_limits', {'t': 'tuple', 'els': [dt, dt]},
-                                                    {'k': 'list', 'xs': [num(dt['lo']), num(dt['hi'])]})
+                                                    {'k': 'list', 'xs': [num(dt['lo']), num(dt['hi'])]}, level)
                 else:
                     lim = {'kind': 'minmax', 'lo': '', 'hi': ''}
                     if k in ('minmax', 'min'):
                         lim['lo'] = attr + '_min'
-                        accs[attr + '_min'] = _limpar(pre + '_min', dt, num(dt['lo']))
+                        accs[attr + '_min'] = _limpar(pre + '_min', dt, num(dt['lo']), level)
                     if k in ('minmax', 'max'):
                         lim['hi'] = attr + '_max'
-                        accs[attr + '_max'] = _limpar(pre + '_max', dt, num(dt['hi']))
-                hooks = [{'at': 'LIMIT'}]
-            if const == NULL and rnd.random() < 0.5:
-                def table():
-                    return [rand_valid(rnd, dt) for _ in range(rnd.randint(0, 3))]
-                if rnd.random() < 0.7:
-                    hooks.insert(0, {'at': 'D', 'raise': table(), 'stop': table()})
-                if rnd.random() < 0.5:
-                    hooks.append({'at': 'B', 'raise': table(), 'stop': table()})
+                        accs[attr + '_max'] = _limpar(pre + '_max', dt, num(dt['hi']), level)
+            hooks = []
+            hooked = [lv for lv, pr in (('D', 0.35), ('M', 0.3), ('B', 0.3)) if const == NULL and rnd.random() < pr]
+            for lv in ('D', 'X', 'M', 'B'):               # MRO order; the limit check at the class of the limits
+                if lv in hooked:
+                    hooks.append({'at': lv, 'raise': [rand_valid(rnd, dt) for _ in range(rnd.randint(0, 3))],
+                                  'stop': [rand_valid(rnd, dt) for _ in range(rnd.randint(0, 3))]})
+                if lim['kind'] != 'none' and lv == level:
+                    hooks.append({'at': 'LIMIT'})
             accs[attr] = {'kind': 'param', 'wire': wire, 'dt': dt, 'ro': ro, 'const': const,
                           'init': rand_valid(rnd, dt), 'lim': lim, 'hooks': hooks,
                           'drv': rnd.choice(['absent', 'none', 'none', 'same', 'fixed']),
-                          'ret': rand_valid(rnd, dt), 'islimit': False}
+                          'ret': rand_valid(rnd, dt), 'islimit': False, 'level': level}
         for attr in rnd.sample(['go', 'stop', 'ca', 'cb'], rnd.randint(1, 2)):
             r = rnd.random()
             auto = attr if attr in ('go', 'stop') else '_' + attr
@@ -686,9 +696,9 @@ def rand_shape(rnd):
     return shape
 
 
-def _limpar(wire, dt, init):
+def _limpar(wire, dt, init, level='X'):
     return {'kind': 'param', 'wire': wire, 'dt': dt, 'ro': False, 'const': NULL, 'init': init,
-            'lim': {'kind': 'none'}, 'hooks': [], 'drv': 'absent', 'ret': NULL, 'islimit': True}
+            'lim': {'kind': 'none'}, 'hooks': [], 'drv': 'absent', 'ret': NULL, 'islimit': True, 'level': level}
 
 
 def rand_request(rnd, shape, cache):
